@@ -565,6 +565,24 @@ func (k *K9) returnsCaptured(fn, clo *ssa.Function, ret *ssa.Return) bool {
 	if !ok {
 		return false
 	}
+	// a named result captured by the closure itself: whatever a failing exit returns is what the closure reads
+	bound := func(a *ssa.Alloc) bool {
+		for _, b := range fn.Blocks {
+			for _, ins := range b.Instrs {
+				if mc, ok := ins.(*ssa.MakeClosure); ok && mc.Fn == clo {
+					for _, bnd := range mc.Bindings {
+						if bnd == ssa.Value(a) {
+							return true
+						}
+					}
+				}
+			}
+		}
+		return false
+	}
+	if bound(al) {
+		return true
+	}
 	// with defers go/ssa spills results: `return err` is `*result = *err; rundefers; return *result`
 	if st := ReachingStore(u); st != nil {
 		if u2, ok := st.Val.(*ssa.UnOp); ok {
